@@ -1,11 +1,25 @@
 ENGINES = [
- {'name': 'forkrng', 'path': 'eonverif/forkrng.py', 'serves_properties': ['C16'],
+ {'name': 'forkrng', 'path': 'eonverif/forkrng.py', 'serves_properties': ['C01', 'C02', 'C03', 'C12', 'C15', 'C16'],
   'kind_free_text': 'forking random source: the simulator becomes a deterministic function of a decision script; DFS over scripts gives the exact probability law of the implementation'},
  {'name': 'runner', 'path': 'eonverif/runner.py', 'serves_properties': ['C16'],
   'kind_free_text': 'Hypothesis driver (seeded, no database), known-findings filter, shrinking, replay files, evidence'},
 ]
 NOTES = 'All checks: ./check <ID> [--tier quick|thorough] [--replay FILE]; exit 0 held / 1 violation / 2 harness problem or inconclusive. See DESIGN.md.'
 CHECKS = {
+ 'C01': {
+  'engine': 'forkrng+oracles+mc',
+  'technique': 'exact step-law extraction (forking RNG, exhaustive history trees n<=3/4 + Hypothesis walks) vs CTMC rate shares; Monte-Carlo chi-square vs master equation for fast_SIR',
+  'design_ref': 'DESIGN.md section 3 C01, sections 2.1-2.3',
+  'text': 'Gillespie_SIR: for every labelled graph up to 3 (quick) / 4 (thorough) nodes, every initial S/I/R assignment, weight mode and rate pair, the complete history tree is walked and at every reachable history the exact probability of every next event, the rate of the exponential clock and the reported event time are compared with the chain (tol 1e-9); Hypothesis walks extend this to generated graphs n<=6 with labels, weights, R0, tmin/tmax. fast_SIR (and Gillespie_SIR again): per-node state vector at two times and at the end vs the 3^N master equation by two-stage chi-square. Exhaustive up to the node bound for Gillespie_SIR; statistical for fast_SIR.',
+  'note': 'Trusts: forking random source; scipy expm / linear solve for the master equation; randomness flows through EoN.simulation.random/np.random (C18). fast_SIR decided statistically: rate distortions below about 5% (quick) / 1-2% (thorough) can escape; false-alarm probability <=1e-9 per configuration.',
+ },
+ 'C02': {
+  'engine': 'forkrng+oracles+mc',
+  'technique': 'exact step-law extraction (forking RNG, history trees + Hypothesis walks with reinfection) vs CTMC rate shares; Monte-Carlo chi-square vs 2^N master equation for fast_SIS',
+  'design_ref': 'DESIGN.md section 3 C02',
+  'text': 'Gillespie_SIS: complete history trees up to the horizon for every labelled graph n<=3 and generated walks of up to 14 events (reinfections) on graphs n<=6: exact next-event law, clock rate and time at every history. fast_SIS and Gillespie_SIS: full node-state vector at two times T<tmax vs the master equation (two-stage chi-square), on graphs where queued transmissions are invalidated with high probability.',
+  'note': 'As C01. fast_SIS is decided statistically only.',
+ },
  'C16': {
   'engine': 'forkrng',
   'technique': 'Hypothesis stateful (rule-based machine) vs dict model; exact selection law by enumerating the forks of the rejection sampler',
